@@ -13,9 +13,10 @@ exercised by the correspondence); `json.dumps` enters as a parameter (the spec c
 modelled at byte level (`quoteWith`, `quotePlusWith`, `unq`, `unqPlus`, `parseQsl`) with the always-safe
 set regenerated from the stdlib.
 
+A query string (and fragment) given on the path is split off like `urlsplit` does and merged into the qargs dict
+(`urlParts`, `parsePathQs`, `mergeQs`); multipart forms take the boundary as a parameter.
 Inputs the model declines (`Exn.unmodelled`, never generated inside C14's quantifier): a path that does
-not start with exactly one `/` or that holds `?`/`#` (it would be re-split by `urlsplit`), a method with
-non-ASCII bytes, multipart forms, chunked request bodies, a `Content-Length` that is not plain digits.
+not start with exactly one `/`, a method with non-ASCII bytes, chunked request bodies, a `Content-Length` that is not plain digits.
 Kept defects: F50 (`parseLeader` assigns `headers[key] = value`: a repeated header keeps its last
 value), C14-K2 (`urlsplit` drops TAB/CR/LF from the path before it is quoted).
 -/
@@ -107,6 +108,7 @@ structure Spec where
   raw : Bytes                       -- the raw body, or `json.dumps(data, separators=(',', ':'))` as UTF-8
   form : List (Bytes × Bytes)
   host : Bytes                      -- "hostname:port" of the connection (value of the default Host header)
+  boundary : Bytes                  -- the multipart boundary `build` draws with `random.randint` (a parameter, like the JSON text)
 deriving Repr, DecidableEq
 
 /-- `urlsplit` removes TAB, LF and CR from the URL -/
@@ -135,21 +137,61 @@ def multipart (s : Spec) : Bool :=
   | some v => startsWith (lit "multipart/form-data") v
   | none => false
 
+/-- `urlsplit(u)` of a relative reference: (path, query); the fragment is dropped -/
+def urlParts (u : Bytes) : Bytes × Bytes :=
+  let noFrag := match splitAt1 35 u with | some (a, _) => a | none => u
+  match splitAt1 63 noFrag with
+  | some (p, q) => (p, q)
+  | none => (noFrag, [])
+
+/-- the `;` / `&` split of `updateQargsQuery` -/
+def queryParts (q : Bytes) : List Bytes :=
+  if q.contains 59 then splitOn 59 q else if q.contains 38 then splitOn 38 q else [q]
+
+/-- one part of a query string given on the path: name and value are form-decoded, a bare name means `true` -/
+def parsePart (f : Bytes) : Bytes × Bytes :=
+  match splitAt1 61 f with
+  | some (k, v) => (unqPlus k, unqPlus v)
+  | none => (unqPlus f, lit "true")
+
+/-- the query arguments `updateQargsQuery` reads from a query string -/
+def parsePathQs (q : Bytes) : List (Bytes × Bytes) :=
+  if q.isEmpty then [] else ((queryParts q).filter (fun f => !f.isEmpty)).map parsePart
+
+/-- `d[k] = v` on an insertion-ordered dict -/
+def dictSet (k v : Bytes) : List (Bytes × Bytes) → List (Bytes × Bytes)
+  | [] => [(k, v)]
+  | (k', v') :: r => if k' == k then (k', v) :: r else (k', v') :: dictSet k v r
+
+/-- the qargs dict updated by the arguments found on the path -/
+def mergeQs (qs ps : List (Bytes × Bytes)) : List (Bytes × Bytes) :=
+  ps.foldl (fun acc kv => dictSet kv.1 kv.2 acc) qs
+
+/-- the `multipart/form-data` body for boundary `b` -/
+def multipartBody (b : Bytes) (form : List (Bytes × Bytes)) : Bytes :=
+  form.flatMap (fun kv => lit "\r\n--" ++ b ++ lit "\r\nContent-Disposition: form-data; name=\"" ++ kv.1 ++
+      lit "\"\r\nContent-Type: text/plain; charset=utf-8\r\n\r\n" ++ kv.2) ++
+    lit "\r\n--" ++ b ++ lit "--"
+
+/-- body and header fields as sent: nothing with GET, else JSON text / form encoding (urlencoded or multipart) / raw body -/
+def bodyAndHeaders (s : Spec) : Bytes × Headers :=
+  if upper s.method == lit "GET" then ([], s.headers)
+  else if s.bkind == 1 then (s.raw, setKey (lit "content-type") Gen.jsonContentType s.headers)
+  else if s.bkind == 2 then
+    (if multipart s then (multipartBody s.boundary s.form, setKey (lit "content-type") (lit "multipart/form-data; boundary=" ++ s.boundary) s.headers)
+     else (formBody s.form, setKey (lit "content-type") Gen.formContentType s.headers))
+  else (s.raw, s.headers)
+
 def buildParts (s : Spec) : Except Exn Built :=
   let method := upper s.method
-  let p1 := stripUnsafe (if s.path.isEmpty then [47] else s.path)
-  if !pathOk p1 || !isAscii s.method then .error .unmodelled else
-  let query := packQs s.qargs
-  let target := quote p1 ++ (if query.isEmpty then [] else 63 :: query)
+  let parts := urlParts (stripUnsafe (if s.path.isEmpty then [47] else s.path))
+  if !pathOk parts.1 || !isAscii s.method then .error .unmodelled else
+  let query := packQs (mergeQs s.qargs (parsePathQs parts.2))
+  let target := quote parts.1 ++ (if query.isEmpty then [] else 63 :: query)
   let start := method ++ [32] ++ target ++ [32] ++ Gen.requestVersion
   let hostL := if hasKey (lit "host") s.headers then [] else [packHeader (lit "Host") s.host]
   let accL := if hasKey (lit "accept-encoding") s.headers then [] else [packHeader (lit "Accept-Encoding") Gen.acceptEncoding]
-  if method != lit "GET" && s.bkind == 2 && multipart s then .error .unmodelled else
-  let bh : Bytes × Headers :=
-    if method == lit "GET" then ([], s.headers)
-    else if s.bkind == 1 then (s.raw, setKey (lit "content-type") Gen.jsonContentType s.headers)
-    else if s.bkind == 2 then (formBody s.form, setKey (lit "content-type") Gen.formContentType s.headers)
-    else (s.raw, s.headers)
+  let bh := bodyAndHeaders s
   let clL := if !bh.1.isEmpty && !hasKey (lit "content-length") bh.2 then [packHeader (lit "Content-Length") (toDec bh.1.length)] else []
   .ok ⟨[start] ++ hostL ++ accL ++ clL ++ bh.2.map (fun h => packHeader h.1 h.2), bh.1⟩
 
@@ -210,7 +252,7 @@ def splitTarget (url : Bytes) : Except Exn (Bytes × Bytes) :=
   | some (p, q) => .ok (p, q)
   | none => .ok (noFrag, [])
 
-def recover (raw : Bytes) : Except Exn View :=
+def recover (raw : Bytes) : Except Exn (View × Bytes) :=
   match takeLine raw with
   | none => .error .incomplete
   | some (line, rest) =>
@@ -238,6 +280,16 @@ def recover (raw : Bytes) : Except Exn View :=
         | .error e => .error e
         | .ok n =>
           if rest2.length < n then .error .incomplete
-          else .ok ⟨method, unq qpath, parseQsl query, hs, rest2.take n⟩
+          else .ok (⟨method, unq qpath, parseQsl query, hs, rest2.take n⟩, rest2.drop n)
+
+/-- the requests one `Requestant` parses from a connection's byte stream, one after the other; the parser carries
+nothing from one request to the next except the unread rest of the stream -/
+def recoverSeq : Nat → Bytes → List (Except Exn View)
+  | 0, _ => []
+  | n + 1, raw =>
+    if raw.isEmpty then []
+    else match recover raw with
+      | .ok (v, rest) => .ok v :: recoverSeq n rest
+      | .error e => [.error e]
 
 end Hio.Http.Req
